@@ -70,6 +70,9 @@ c16!(c16_ecl10_read_size32784, 20, read_instr_never_panics::<16>(&ModernEclHooks
 //@ C16 c16_ecl10_read_any20 quick default ECL (TH10+): read_instr on 20 ARBITRARY bytes (size field symbolic too: every value, including sizes beyond the buffer, which end in an end-of-file error) returns Ok or Err and never panics
 c16!(c16_ecl10_read_any20, 24, read_instr_never_panics::<20>(&ModernEclHooks, 0, 0, 0));
 
+// (write_string_list / read_string_list - the NUL-separated name lists - were tried with the transcoder
+// stubbed in both directions: no verdict in 600 s; they stay listed as unverified.)
+
 #[cfg(kani)]
 #[path = "/verif/.cache/playback/ecl_10.rs"]
 mod playback;
